@@ -116,11 +116,7 @@ func (p *proxy) call(ctx erpc.UnknownCallCtx) (interface{}, *erpc.Status) {
 		ctx.SetMeta(goutil.BytesToString(key), goutil.BytesToString(value))
 	})
 	stat := callcmd.Status()
-	if !stat.OK() && stat.Code() < 200 && stat.Code() > 99 {
-		stat.SetCode(erpc.CodeBadGateway)
-		stat.SetMsg(erpc.CodeText(erpc.CodeBadGateway))
-	}
-	return result, stat
+	return result, badGateway(stat)
 }
 
 func (p *proxy) push(ctx erpc.UnknownPushCtx) *erpc.Status {
@@ -140,9 +136,18 @@ func (p *proxy) push(ctx erpc.UnknownPushCtx) *erpc.Status {
 	}
 	label.ServiceMethod = ctx.ServiceMethod()
 	stat := p.pushForwarder(&label).Push(label.ServiceMethod, ctx.InputBodyBytes(), settings...)
+	return badGateway(stat)
+}
+
+// badGateway maps a connection-class status (code 100..199) of the forwarder to a
+// Bad Gateway status with the same cause.
+// NOTE: the forwarder's status may be a shared predefined object (for example the
+// one every closed session returns), so it is copied, never modified in place.
+func badGateway(stat *erpc.Status) *erpc.Status {
 	if !stat.OK() && stat.Code() < 200 && stat.Code() > 99 {
-		stat.SetCode(erpc.CodeBadGateway)
-		stat.SetMsg(erpc.CodeText(erpc.CodeBadGateway))
+		return stat.Copy(nil).
+			SetCode(erpc.CodeBadGateway).
+			SetMsg(erpc.CodeText(erpc.CodeBadGateway))
 	}
 	return stat
 }
